@@ -26,6 +26,7 @@ import (
 	"io"
 	"os"
 	"os/exec"
+	"runtime"
 	"sort"
 	"strconv"
 	"strings"
@@ -36,6 +37,7 @@ import (
 )
 
 type result struct {
+	Restart  bool           `json:"restart,omitempty"` // the worker could not release the node in time: replace it
 	Steps    int            `json:"steps"`
 	Checks   int            `json:"checks"`
 	Failures []mbt.Failure  `json:"failures"`
@@ -203,12 +205,20 @@ func supervise(traces []mbt.Trace) *mbt.Report {
 				rep.Traces++
 				if timedOut {
 					w.kill()
+					stuck := w.stderr.String()
+					if i := strings.Index(stuck, "WATCHDOG:"); i >= 0 {
+						stuck = stuck[i:]
+					}
+					if len(stuck) > 6000 {
+						stuck = stuck[:6000]
+					}
 					w = nil
-					rep.Fail(mbt.Failure{Trace: j.ti, TraceID: tr.ID, Kind: "error", Property: false, Key: "worker-hang", Detail: "worker did not finish the behaviour in time"})
+					rep.Fail(mbt.Failure{Trace: j.ti, TraceID: tr.ID, Kind: "error", Property: false, Key: "worker-hang", Detail: "worker did not finish the behaviour in time\n" + stuck})
 					mu.Unlock()
 					continue
 				}
-				if r.err != nil {
+				if timedOutDetail := ""; r.err != nil {
+					_ = timedOutDetail
 					// the node (worker process) died while replaying this behaviour
 					w.cmd.Wait()
 					site, ex := panicSite(w.stderr.String())
@@ -226,6 +236,11 @@ func supervise(traces []mbt.Trace) *mbt.Report {
 					rep.Fail(mbt.Failure{Trace: j.ti, TraceID: tr.ID, Kind: "error", Key: "worker-output", Detail: err.Error() + ": " + string(r.b)})
 					mu.Unlock()
 					continue
+				}
+				if res.Restart {
+					w.kill()
+					w = nil
+					rep.Count("worker_restarts")
 				}
 				rep.Steps += res.Steps
 				rep.Checks += res.Checks
@@ -260,7 +275,27 @@ func workerLoop() {
 			if derr := dec.Decode(&tr); derr != nil {
 				res.Failures = append(res.Failures, mbt.Failure{Kind: "error", Detail: "bad trace: " + derr.Error()})
 			} else {
-				env.run(&res, tr)
+				done := make(chan struct{})
+				go func() { // watchdog: show where a behaviour is stuck
+					select {
+					case <-done:
+					case <-time.After(150 * time.Second):
+						buf := make([]byte, 1<<20)
+						n := runtime.Stack(buf, true)
+						fmt.Fprintf(os.Stderr, "WATCHDOG: behaviour %s stuck; goroutines:\n%s\n", tr.ID, buf[:n])
+					}
+				}()
+				cleanup := env.run(&res, tr)
+				close(done)
+				if cleanup != nil {
+					fin := make(chan struct{})
+					go func() { cleanup(); close(fin) }()
+					select {
+					case <-fin:
+					case <-time.After(20 * time.Second):
+						res.Restart = true // teardown of the node hangs: abandon this process
+					}
+				}
 			}
 			b, _ := json.Marshal(res)
 			out.Write(b)
